@@ -157,6 +157,28 @@ CLAIMS = {
              "timestamp unit from the array's datatype, so 'type of every value' is checked as 'type of every array'; statements that return no batch cannot be checked for produced types (counted in the evidence).",
         technique="translator (cast table regenerated from the running code) + Lean 4 proofs over the whole table (decide +kernel) + DESCRIBE / output-schema / produced-array agreement on type-directed statement streams",
         design="5/C18"),
+    "C11": dict(
+        text=("Props/C11.lean about Core/Scan.lean: queues_partition - for every partition count P >= 1 the per-partition file (row-group) queues `index mod P` together are a permutation of the expanded file list: "
+              "every file is scanned exactly once, none twice (buckets_perm by induction over the list, any element type); prune_conservative - when the model of PrimitiveRowGroupPruner::should_prune answers true for "
+              "statistics that are valid in the comparison type, no row of the chunk satisfies all pushed `col = constant` conjuncts; absent/inexact statistics and NULL constants never prune; the validity "
+              "hypothesis on the `as_()` cast cannot be dropped (wrapping-cast witness). Tie: ~900 pushed-down equality scans over every distinct Parquet file of /repo/testdata (constants present / below min / "
+              "above max / NULL x projections incl. non-prefix, repeated, reordered, metadata columns, count(*)) vs reading everything and filtering with an unpushable predicate with the optimizer off; file "
+              "lists, repeated files and globs of CSV / text / Parquet files of different sizes under 1-16 partitions vs the UNION ALL of single-file scans."),
+        note=TB + "no Parquet writer exists offline, so statistics configurations are those of the testdata files (single row group, exact min/max): inexact/absent/unsigned statistics and multi-row-group pruning are "
+             "covered by the theorems only; the assignment model is `index mod P` - its agreement with skip(p).step_by(P) is validated only through the multi-file results; glob matching is not modelled.",
+        technique="Lean 4 proof (queues are a partition of the file list for every P; pruning is conservative) + pushed-vs-unpushed and list-vs-union differential scans",
+        design="5/C11"),
+    "C19": dict(
+        text=("Partial. Props/C19.lean: the footer loader (Core/Footer.lean) accepts only metadata slices that lie inside the file (footer_ok_in_file) and - after the repair - never sizes a buffer from a length "
+              "larger than the file (footer_checked_alloc_le_size; the pinned commit's 4 GiB allocation from a 12-byte file is the witness footer_unchecked_alloc_unbounded); the CSV decoder is a total function on "
+              "arbitrary bytes whose buffered output never exceeds its input (decode_weight_le, induction over the bytes); a truncated RLE/bit-packed stream is reported, not over-read (Props/C10). Tie: ~3700 Parquet "
+              "mutants (every truncation length, per-byte corruptions {^01,^80,=00,=FF}, byte insert/delete of the small test files; sampled footer / page-header / data positions of larger ones; crafted footer "
+              "lengths and magics checked against the footer model) and ~360 malformed CSV inputs (invalid UTF-8, unterminated quotes, ragged rows, NUL bytes, 3 MB fields, 5000 columns, random CSV-ish bytes x "
+              "dialect options), each read by SELECT * and count(*) in a child process with a wall clock and a resident-memory watchdog: outcome must be rows or an error."),
+        note=TB + "why partial: whether an out-of-bounds read faults depends on the allocator and build mode, decompressors are third-party, and the thrift/page decoders are not modelled beyond the footer - their robustness "
+             "is sampled by the fault sweep, not proved; valid starting files are limited to /repo/testdata (no Parquet writer offline); five crash sites and one hang are listed as known findings, keyed by panicking file + message.",
+        technique="Lean 4 proof (footer bounds, CSV decoder totality and output bound) + fault-space sweep (truncation / byte corruption / metadata lies) with crash, hang and memory oracle in child processes",
+        design="5/C19", partial=True),
 }
 
 NOT_YET = {
